@@ -1,3 +1,30 @@
+//! vx-io: checkers for the motif-file reader properties (C14, C15).  Invoked by /verif/bin/check.
+
+mod chunked;
+mod drive;
+mod watch;
+mod writer;
+
+mod c14;
+mod c15;
+
 fn main() {
-    vx_core::cli::main(|_prop, _ctx, _rep| false, |_prop, _ctx, _rep, _case| false);
+    vx_core::cli::main(
+        |prop, ctx, rep| {
+            match prop {
+                "C14" => c14::run(ctx, rep),
+                "C15" => c15::run(ctx, rep),
+                _ => return false,
+            }
+            true
+        },
+        |prop, ctx, rep, case| {
+            match prop {
+                "C14" => c14::replay(ctx, rep, case),
+                "C15" => c15::replay(ctx, rep, case),
+                _ => return false,
+            }
+            true
+        },
+    );
 }
